@@ -1,8 +1,8 @@
 use std::io;
 #[cfg(not(may_verif))]
-use std::sync::atomic::{AtomicUsize, Ordering};
+use std::sync::atomic::{AtomicBool, AtomicUsize, Ordering};
 #[cfg(may_verif)]
-use crate::verif::atomic::{AtomicUsize, Ordering};
+use crate::verif::atomic::{AtomicBool, AtomicUsize, Ordering};
 use std::sync::Arc;
 use std::thread;
 
@@ -31,6 +31,12 @@ pub fn trigger_cancel_panic() -> ! {
     // so that we can avoid the re-panic problem?
     // currently this is not used in any drop implementation
     // current_cancel_data().state.store(0, Ordering::Release);
+
+    // remember that this unwind is the cancellation: the locks don't poison for
+    // it, but they must for a real panic of a coroutine that is cancelled as well
+    if crate::coroutine_impl::is_coroutine() {
+        crate::coroutine_impl::current_cancel_data().set_unwinding();
+    }
     std::panic::panic_any(Error::Cancel);
 }
 
@@ -72,6 +78,8 @@ pub struct CancelImpl<T: CancelIo> {
     // can't set io and co at the same time!
     // most of the time this is park based API
     co: AtomicOption<Arc<AtomicOption<CoroutineImpl>>>,
+    // the Cancel panic has been raised, the coroutine is unwinding because of it
+    unwinding: AtomicBool,
 }
 
 impl<T: CancelIo> Default for CancelImpl<T> {
@@ -87,7 +95,18 @@ impl<T: CancelIo> CancelImpl<T> {
             state: AtomicUsize::new(0),
             io: T::new(),
             co: AtomicOption::none(),
+            unwinding: AtomicBool::new(false),
         }
+    }
+
+    // the Cancel panic is being raised
+    pub fn set_unwinding(&self) {
+        self.unwinding.store(true, Ordering::Relaxed);
+    }
+
+    // true if the coroutine is unwinding because of the Cancel panic
+    pub fn is_unwinding(&self) -> bool {
+        self.unwinding.load(Ordering::Relaxed)
     }
 
     // judge if the coroutine cancel flag is set
